@@ -241,6 +241,19 @@ def build_pair(sim, case, on, counter):
     if o.get("h3"):
         kw["alpn"] = ("h3",)
     slack = o.get("timer_slack")
+    if case.get("resume"):
+        # resumption / 0-RTT: a first connection (no logging anywhere) fills a ticket store shared with the pair under test
+        store = sim.TicketStore()
+        p0 = sim.Pair(case["seed"] ^ 0x5A5A5A, ticket_store=store, client_qlog=False, server_qlog=False, secrets_log=False,
+                      observe=False, **kw)
+        if not p0.handshake():
+            raise RuntimeError("first connection of the resumption scenario did not complete")
+        p0.run_until_idle()
+        if not store.client_tickets:
+            raise RuntimeError("no session ticket")
+        cfgs["client"]["session_ticket"] = store.client_tickets[-1]
+        kw["ticket_store"] = sim.TicketStore() if case["resume"].get("reject") else store
+        kw["clock_start"] = max(1000.0, store.resume_after)
     pair = sim.Pair(
         case["seed"], client_config=cfgs["client"], server_config=cfgs["server"],
         fates=_net_fates(sim, case.get("net"), case["seed"]),
@@ -282,6 +295,17 @@ def run_script_case(sim, case, pair, subject, peer, rec):
         outcomes = pair.run_script(_script_from_case(sim, case), on_api_error="record", max_time=case.get("max_time", 60.0))
         rec["script_outcomes"] = [o for _, o in outcomes]
     pair.run_until_idle(max_time=case.get("idle_time", 30.0))
+
+
+def run_resume_case(sim, case, pair, subject, peer, rec):
+    """Resumed connection: early (0-RTT) stream writes queued before the first flight, then the handshake and a script."""
+    r = case["resume"]
+    pair.connect(pump=False)
+    rnd = random.Random("early-%s" % case["seed"])
+    for i in range(r.get("early_writes", 0)):
+        pair.client.send_stream_data(4 * i, rnd.randbytes(rnd.choice([1, 300, 2000])), end_stream=bool(i % 2))
+    pair.pump(pair.client)
+    run_script_case(sim, case, pair, subject, peer, rec)
 
 
 # ---- hostile peer (puppet) ------------------------------------------------------------------------
@@ -641,7 +665,7 @@ def run_h3_case(sim, case, pair, subject, peer, rec):
 # ---- one run -------------------------------------------------------------------------------------
 
 
-RUNNERS = {"script": run_script_case, "hostile": run_hostile_case, "h3": run_h3_case}
+RUNNERS = {"script": run_script_case, "hostile": run_hostile_case, "h3": run_h3_case, "resume": run_resume_case}
 
 
 def run_once(sim, case, on):
@@ -923,6 +947,12 @@ def gen_cases(rng, n_script, n_hostile, n_h3, n_h3_bad):
             c["mode"] = "qlog"
         elif r < 0.24:
             c["mode"] = "secrets"
+        if i % 5 == 4 and not opts.get("retry"):
+            # resumed connection with 0-RTT data (accepted, or rejected by a server that lost the ticket): the key-logging
+            # and qlog code of the early-data path
+            c["kind"] = "resume"
+            c["resume"] = {"early_writes": rng.choice([0, 1, 3]), "reject": rng.random() < 0.25}
+            c["mode"] = rng.choice(["both", "secrets", "qlog"])
         cases.append(c)
     for i in range(n_hostile):
         seed = rng.randrange(1 << 30)
